@@ -1,5 +1,6 @@
 import AldorVerif.Model.Mangle
 import AldorVerif.Model.CSplit
+import AldorVerif.Model.CLit
 /-! line protocol for the `mangle` part (driver side; not part of the model).
 Requests as in harness/mangle_drv.c. -/
 namespace AldorVerif.Driver.Mangle
@@ -24,6 +25,9 @@ def unhex (s : String) : Option (List Char) :=
   if s = "-" then some [] else unhexL s.toList
 
 def str (l : List Char) : String := String.ofList l
+
+def hexDigit (n : Nat) : Char := if n < 10 then Char.ofNat (48 + n) else Char.ofNat (87 + n)
+def hex2 (n : Nat) : String := String.ofList [hexDigit (n / 16 % 16), hexDigit (n % 16)]
 
 def b01 (b : Bool) : String := if b then "1" else "0"
 
@@ -75,6 +79,36 @@ def line (toks : List String) : String :=
         | c :: _ => if c.isDigit then "digit" else "generic"
       "=" ++ str (multVarId idlen true k i s) ++ " =" ++ str (varId idlen k i)
         ++ "\tkind=" ++ kind ++ " bempty=" ++ b01 (s == [])
+    | _, _, _, _ => "bad-op"
+  | ["lit", sd, qk, h] =>
+    match sd.toNat?, unhex h with
+    | some sd, some s =>
+      let std := sd ≠ 0
+      let q := if qk = "c" then '\'' else '"'
+      let out := CLit.printLit std q s
+      let hex := String.join (out.map (fun c => hex2 c.toNat))
+      let den := CLit.denote q (CLit.escapeLit std s)
+      hex ++ "\tstd=" ++ b01 std ++ " kind=" ++ qk ++ " roundtrip=" ++ b01 (den == some s)
+        ++ " qmark=" ++ b01 (s.contains '?') ++ " octal=" ++ b01 (s.any (fun c => !CLit.isPrint c && (CLit.escChar std c).length > 2))
+    | _, _ => "bad-op"
+  | "inits" :: n :: sm :: uh :: imps =>
+    match n.toInt?, sm.toInt?, unhex uh, imps.mapM unhex with
+    | some n, some sm, some unit, some imps =>
+      let idlen := setIdLen n
+      let smax := setSMax sm
+      let cl := codeList smax [2, 1, 1] 0
+      let over := overSMax smax (guessStmts [2, 1, 1] 0)
+      let parts := if over then cl.length - 2 else 0
+      let own := (List.range (parts + 1)).map (fun k =>
+        if k = 0 then siteDefinition idlen unit true parts else siteDefinition idlen unit false k)
+      let decls := (List.range parts).map (fun k => siteBrotherDecl idlen unit (k + 1))
+      let calls := (List.range parts).map (fun k => siteBrotherCall idlen unit (k + 1))
+      let imp := (imps ++ ["rtexns".toList]).map (siteImport idlen)
+      let all := (own ++ decls ++ calls ++ imp).map str
+      let main := [siteMainDecl idlen unit, siteMainCall idlen unit].map str
+      let norm (l : List String) : String := " ".intercalate ((l.eraseDups).mergeSort (· ≤ ·))
+      norm all ++ " ; " ++ norm main ++ "\tparts=" ++ toString parts ++ " unitcut=" ++ b01 (validIdCut idlen 8 unit)
+        ++ " clash=" ++ b01 (all.eraseDups.length < (own ++ imp).length)
     | _, _, _, _ => "bad-op"
   | op :: sm :: ng :: bh :: bs =>
     if op ≠ "split" ∧ op ≠ "splitS" then "bad-op" else
